@@ -2161,6 +2161,11 @@ class KmipEngine(object):
         # TODO (peterhamilton): Pull cryptographic parameters from the keying
         # object if none are provided with the payload
         crypto_parameters = derivation_parameters.cryptographic_parameters
+        if crypto_parameters is None:
+            raise exceptions.InvalidField(
+                "The cryptographic parameters must be provided in the "
+                "derivation parameters."
+            )
         derived_data = self._cryptography_engine.derive_key(
             derivation_method=payload.derivation_method,
             derivation_length=derivation_length,
@@ -2569,6 +2574,11 @@ class KmipEngine(object):
                 key_info = key_wrapping_spec.encryption_key_information
                 encryption_key_uuid = key_info.unique_identifier
                 encryption_key_params = key_info.cryptographic_parameters
+                if encryption_key_params is None:
+                    raise exceptions.InvalidField(
+                        "The cryptographic parameters must be provided in "
+                        "the encryption key information."
+                    )
 
                 try:
                     key = self._get_object_with_access_controls(
